@@ -280,10 +280,12 @@ def vector(rng, kind, n):
         return rng.integers(3_000_000_000, 3_000_000_050, size=n)
     if kind == "wide":
         return rng.uniform(0.5, 9.7, size=n)
+    if kind == "tiny-scale":
+        return rng.normal(0.0, 1e-10, size=n) + float(rng.choice([0.0, 1e-9]))
     raise ValueError(kind)
 
 
-KINDS = ["normal", "offset", "heavy", "ties", "zero-mean", "int", "uniform", "huge-offset", "big-int", "wide"]
+KINDS = ["normal", "offset", "heavy", "ties", "zero-mean", "int", "uniform", "huge-offset", "big-int", "wide", "tiny-scale"]
 
 
 def later_inputs(rng, x):
